@@ -560,8 +560,16 @@ impl WebSocketContext {
                     self.set_additional(msg);
                     false
                 }
-                Err(err) => return Err(err),
-                Ok(_) => true,
+                Err(err) => {
+                    // the frame is in the write buffer, but not on the wire yet
+                    self.unflushed_additional = true;
+                    return Err(err);
+                }
+                Ok(_) => {
+                    // remember it until a flush succeeds, so that `read` retries too
+                    self.unflushed_additional = true;
+                    true
+                }
             }
         } else {
             self.unflushed_additional
